@@ -45,6 +45,26 @@ reset()
 }
 
 void
+reset_common(Lib* out)
+{
+    out->present = true;
+    out->has_entry = true;
+    out->init = common_driver_init_v0;
+}
+
+static struct Driver*
+init_returns_null(void (*)(int, const char*, int, const char*, const char*))
+{
+    return nullptr;
+}
+
+init_fn
+null_init()
+{
+    return init_returns_null;
+}
+
+void
 set_lib(const std::string& name, const Lib& lib)
 {
     g_libs[name] = lib;
